@@ -1,7 +1,8 @@
 (* C05 — Resolving a reference returns exactly the designated sub-document.
    Model: [resolve] / [resolve_finish] / [ptr_get] of Expand/Expand.v (resolveRef, jsonpointer). *)
 From Coq Require Import List String Ascii Bool.
-From Spec Require Import Base.Json Base.Url Codec.Types Codec.Codec Expand.Expand Expand.ExpandFacts.
+From Spec Require Import Base.Json Base.Url Codec.Types Codec.Codec Expand.Expand Expand.ExpandFacts
+  Expand.ExpandSim Expand.ExpandSimCheck Expand.ExpandCycle Expand.ExpandElem.
 Import ListNotations.
 Local Open Scope string_scope.
 
@@ -50,3 +51,37 @@ Example C05_example :
   /\ ptr_get (ptr_tokens (s2l "/definitions/e f%/properties/p")) doc = Some (JObj [("$ref", JStr "#/definitions/a~1b")])
   /\ ptr_get (ptr_tokens (s2l "/definitions/nope")) doc = None.
 Proof. vm_compute. repeat split. Qed.
+
+(* ---------- document-relative resolution, for every kind and every way of supplying the root (Expand/ExpandElem.v) ----------
+   [sem_target_k kind ref base]: the reference text resolved against the base location (normalizeURI), the document the
+   loader serves there, the fragment evaluated as a JSON pointer, the value read as [kind].  Whatever root document the
+   resolver holds (typed root, generic root, none: only the location) and whatever the cache contains, a successful
+   resolution returns exactly that — provided the root the resolver holds is the document at the base (Coh), the cache is
+   consistent with the loader (Inv), and a fragment-only reference normalises into the base's document. *)
+Theorem C05_resolution_is_document_relative : forall E docs cwd live rid,
+  (forall lu ld, live = Some (lu, ld) -> doc_at docs cwd lu = Some ld) ->
+  forall kind s rroot ref base nref s2 t,
+  Inv docs rid s -> Coh cwd rroot base -> nuri ref base = POk nref ->
+  (is_local ref = true -> nbase cwd (strip_frag nref) = nbase cwd (strip_frag base)) ->
+  resolve E docs cwd live s rroot ref base kind = Done (s2, t) ->
+  sem_target_k E docs cwd kind ref base = Some (next_base ref base nref, t) /\ Inv docs rid s2.
+Proof. exact resolve_sem_k. Qed.
+Print Assumptions C05_resolution_is_document_relative.
+
+(* hence the answer is the same however the root is supplied *)
+Theorem C05_same_answer_however_the_root_is_supplied : forall E docs cwd live1 live2 rid,
+  (forall lu ld, live1 = Some (lu, ld) -> doc_at docs cwd lu = Some ld) ->
+  (forall lu ld, live2 = Some (lu, ld) -> doc_at docs cwd lu = Some ld) ->
+  forall kind s1 s2 rroot1 rroot2 ref base nref s1' s2' t1 t2,
+  Inv docs rid s1 -> Inv docs rid s2 -> Coh cwd rroot1 base -> Coh cwd rroot2 base -> nuri ref base = POk nref ->
+  (is_local ref = true -> nbase cwd (strip_frag nref) = nbase cwd (strip_frag base)) ->
+  resolve E docs cwd live1 s1 rroot1 ref base kind = Done (s1', t1) ->
+  resolve E docs cwd live2 s2 rroot2 ref base kind = Done (s2', t2) ->
+  t1 = t2.
+Proof.
+  intros E docs cwd live1 live2 rid H1 H2 kind s1 s2 rr1 rr2 ref base nref s1' s2' t1 t2 I1 I2 C1 C2 Hn Hl R1 R2.
+  destruct (resolve_sem_k E docs cwd live1 rid H1 kind _ _ _ _ _ _ _ I1 C1 Hn Hl R1) as [T1 _].
+  destruct (resolve_sem_k E docs cwd live2 rid H2 kind _ _ _ _ _ _ _ I2 C2 Hn Hl R2) as [T2 _].
+  rewrite T1 in T2. inversion T2. reflexivity.
+Qed.
+Print Assumptions C05_same_answer_however_the_root_is_supplied.
